@@ -294,15 +294,15 @@ def run_inproc(job):
     old = (sys.argv, sys.stderr, sys.stdout, os.getcwd())
     sys.argv, sys.stderr, sys.stdout = ['martinize2'] + argv, io.StringIO(), io.StringIO()
     os.chdir(d)
-    code = 0
+    code, exc = 0, ''
     try:
         runpy.run_path(M2PATH, run_name='__main__')
     except SystemExit as e:
         code = e.code if isinstance(e.code, int) else (0 if e.code is None else 1)
     except BaseException as e:  # noqa
-        code = 'exception:%s:%s' % (type(e).__name__, str(e)[:200])
+        code, exc = 1, 'uncaught %s: %s' % (type(e).__name__, str(e)[:300])   # what the interpreter would exit with
     finally:
-        log = sys.stderr.getvalue()
+        log = sys.stderr.getvalue() + exc
         sys.argv, sys.stderr, sys.stdout = old[:3]
         os.chdir(old[3])
         lg.handlers[:] = []
@@ -692,7 +692,7 @@ QUICK = [
     ('beta', 'm3-elastic-cys', ['perm', 'hren', 'rot90', 'rotgen'], [0, 1, 12345]),
     ('trp', 'm3-posres', ['perm', 'rot90', 'all'], []),
     ('helix', 'm22', ['perm', 'hren'], []),
-    ('dipro', 'm3-nt', ['perm', 'hren', 'hname', 'rot90', 'rotgen'], []),
+    ('dipro', 'm3-nt', ['perm', 'hren', 'hname', 'rot90', 'rotgen'], [0, 1, 2, 3]),
     ('trp', 'eln22', ['all', 'rotgen'], []),
     ('beta', 'm3-ss-elastic', ['all', 'hname'], []),
 ]
